@@ -31,6 +31,7 @@ func crudOracle(prop string, res *RunResult) []Violation {
 	var vs []Violation
 	// descriptors are read in their JSON form (a generated plan still holds Go-typed maps)
 	planJ := res.Plan.Clone()
+	lenient := res.Plan.Params["crash_mode"] == true
 	m := newCrudModel()
 	bad := func(kind, where string, c cop, format string, a ...any) {
 		vs = append(vs, Violation{Sig: prop + ":crud:" + c.s("t") + ":" + kind, Msg: where + " " + fmt.Sprint(map[string]any(c)) + ": " + fmt.Sprintf(format, a...)})
@@ -117,6 +118,9 @@ func crudOracle(prop string, res *RunResult) []Violation {
 				got := map[string]string{}
 				for _, x := range l.Items {
 					k := symOf(x.ID)
+					if lenient && k == x.ID && k != rootSym {
+						continue // an object created by the operation the crash interrupted: its id was never learnt
+					}
 					if _, dup := got[k]; dup {
 						bad("listed-twice", where, c, "%s listed twice", k)
 					}
@@ -138,6 +142,9 @@ func crudOracle(prop string, res *RunResult) []Violation {
 				_ = json.Unmarshal(body, &l)
 				got := map[string]string{}
 				for _, x := range l.Items {
+					if lenient && symOf(x.ID) == x.ID && x.ID != rootSym {
+						continue
+					}
 					got[symOf(x.ID)] = x.Type + "|" + x.Name
 				}
 				want := map[string]string{}
